@@ -198,10 +198,17 @@ def diff_lines(ops_path, impl_path, model_path, limit=20):
 
 
 def load_known(pid):
-    path = os.path.join(VERIF, "known_findings.json")
-    if not os.path.exists(path):
-        return []
-    return [f for f in json.load(open(path)).get("findings", []) if f.get("property") == pid]
+    """known_findings.json, plus per-property fragments known_findings.d/*.json (same schema) that a
+    property's author adds and the maintainer may fold into the main file."""
+    paths = [os.path.join(VERIF, "known_findings.json")]
+    frag = os.path.join(VERIF, "known_findings.d")
+    if os.path.isdir(frag):
+        paths += [os.path.join(frag, f) for f in sorted(os.listdir(frag)) if f.endswith(".json")]
+    out = []
+    for path in paths:
+        if os.path.exists(path):
+            out += [f for f in json.load(open(path)).get("findings", []) if f.get("property") == pid]
+    return out
 
 
 def write_replay(pid, seed, tag, content):
